@@ -266,6 +266,9 @@ func (g *c05gen) val(v fix) {
 		g.op("drop", g.depth-1)
 	case 10: // ifelse
 		c1, c2 := junk(), junk()
+		if r.IntN(4) == 0 {
+			c2 = c1 // the boundary case of "v1 <= v2"
+		}
 		if c1 <= c2 {
 			g.num(v)
 			g.num(junk())
